@@ -156,15 +156,15 @@ def Op.patriciaScope : Op V → Bool
   | .delete _ | .deleteMin | .deleteMax | .withPrefix _ | .longestPrefixOf _ | .match _ => false
   | _ => true
 
-/-- `Put k` does not meet a *different* held key whose zero-padded bit string equals that of `k`
-(`DiffPos = 0`, i.e. the two keys differ only by trailing 0x00 bytes); other operations: no condition -/
-def Op.noClash (m : Spec.Map V) : Op V → Bool
-  | .put k _ => m.all (fun e => e.1 == k || BitString.diffPos e.1 k != 0)
+/-- `Put k` stores a key whose bits stay below the length positions of `bitString`
+(`8 * len(k) ≤ lenPos = 2^30`, i.e. keys shorter than 128 MiB); other operations: no condition -/
+def Op.smallKeys : Op V → Bool
+  | .put k _ => decide (8 * k.length ≤ BitString.lenPos)
   | _ => true
 
-/-- a history in scope, started in Spec state `m`, without such a clash -/
-def PatriciaHistory : Spec.Map V → List (Op V) → Bool
-  | _, [] => true
-  | m, op :: ops => op.patriciaScope && op.noClash m && PatriciaHistory (Spec.Map.step m op).1 ops
+/-- a history in scope whose stored keys are that small -/
+def PatriciaHistory : List (Op V) → Bool
+  | [] => true
+  | op :: ops => op.patriciaScope && op.smallKeys && PatriciaHistory ops
 
 end AlgoVerif.C06
